@@ -217,6 +217,19 @@ def step (cs : CState) (fs : List String) (obs : String) : CState × String × S
             | some s =>
               let removed := (st.entries.map (·.key)).filter (fun k' => !(keysOf s).contains k')
               lruVerdict st (int limit) (fun _ => false) true removed s.bs)
+        | "evict", [limit, mid] =>
+          -- the scan (candidates in eviction order) happens first; then other goroutines' operations; then the
+          -- removal loop, which re-reads the live size before every candidate
+          let cands := sortDesc st.now st.entries
+          let st1 := (parseMid mid).foldl midStep st
+          let r := evictLoop (target (int limit)) (fun _ => false) cands st1 []
+          let st2 : St := { r.1 with mBytes := r.1.byteSize }
+          (st2, "evicted", fun _ =>
+            match isnap with
+            | none => "bad:no-snapshot"
+            | some s =>
+              if s.bs < st2.byteSize then "bad:eviction-went-on-after-the-target-was-reached"
+              else if s.bs > st2.byteSize then "bad:eviction-stopped-above-target" else "ok")
         | "ensure", [] =>
           let r := ensure st
           (r.1, "ensured", fun _ =>
@@ -232,8 +245,22 @@ def step (cs : CState) (fs : List String) (obs : String) : CState × String × S
         | _, _ => (st, "bad-op", fun _ => "bad:bad-op")
       -- timing ambiguity: an eviction decided between candidates closer than the clock noise
       let ambiguous := (op = "evict" || op = "ensure" || op = "store") &&
-        hasTies st st.entries && (st'.entries.length ≠ st.entries.length + (if op = "store" then 1 else 0)) &&
+        hasTies st st.entries &&
         (match isnap with | some s => (renderPairs (s.ent)) ≠ renderPairs (st'.entries.map (fun e => (e.key, e.size))) | none => false)
+      -- … or a store made by another goroutine inside the window of a cleanup / eviction found the cache at its limit
+      -- and evicted on its own: the entries written microseconds apart in that window have equal access times on the
+      -- real clock, so WHICH of them that eviction removed is not determined
+      let windowEvicted : Bool :=
+        if op = "clean" || op = "evict" then
+          match args.getLast? with
+          | some mid =>
+            ((parseMid mid).foldl (fun (acc : St × Bool) m =>
+              let trig := match m with | MidOp.store _ _ _ _ _ => decide (acc.1.byteSize ≥ acc.1.limit) | _ => false
+              (midStep acc.1 m, acc.2 || trig)) (st, false)).2
+          | none => false
+        else false
+      let ambiguous := ambiguous || (windowEvicted &&
+        (match isnap with | some s => (renderPairs (s.ent)) ≠ renderPairs (st'.entries.map (fun e => (e.key, e.size))) | none => false))
       if ambiguous then ({ st := st', desync := true }, obs, "ok")
       else
         let mobs := mres ++ "|" ++ snap st'
